@@ -57,7 +57,7 @@ struct Run
   // producer state
   uint64_t seq{0}, uncommitted{0}, W{0};
   std::vector<Switch> p_switches;
-  uint64_t grows{0}, shrinks{0}, shrink_noops{0}, cap_refusals{0}, throws{0}, multi_double{0}, blocked_retries{0}, unstorable_probes{0};
+  uint64_t grows{0}, shrinks{0}, shrink_noops{0}, cap_refusals{0}, throws{0}, multi_double{0}, blocked_retries{0}, unstorable_probes{0}, nonpow2_refusals{0};
   uint32_t pending_n{0}; // request being retried
   // consumer state
   uint64_t expected{0}, R{0}, pending_commit{0};
@@ -479,8 +479,11 @@ struct Run
           fail("C02", "lost-records", J{}.unum("expected_next_seq", expected).unum("produced", seq).unum("switches_seen", c_switches.size()).str("at", "quiescent point"));
           break;
         }
-        if (seq < cfg.records && (cfg.max & (cfg.max - 1)) == 0)
+        if (seq < cfg.records)
         {
+          // largest size a node can ever hold: node capacities are powers of two
+          uint64_t emax = 1;
+          while (emax * 2 <= cfg.max) emax *= 2;
           uint32_t n;
           switch (r.below(4))
           {
@@ -494,10 +497,21 @@ struct Run
           ++quiescent_probes;
           uint64_t const pc = q->producer_capacity();
           ++tl_inject_depth; // no injected consumer steps during the probe: the state must stay quiescent
+          uint64_t const seq_before = seq;
           bool ok = p_step();
           --tl_inject_depth;
-          if (!ok)
+          if (!ok || seq == seq_before)
           {
+            if (n > emax)
+            {
+              // recorded finding class: the maximum is not a power of two and emax < n <= max; the request is not
+              // retried (it can never be granted)
+              violation("C09", "unbounded-empty-queue-refuses-fitting-record:maximum-not-a-power-of-two",
+                        J{}.unum("n", n).unum("max", cfg.max).unum("largest_node_capacity_within_max", emax).unum("producer_capacity", pc).str("family", "queue-probe"));
+              pending_n = 0;
+              ++nonpow2_refusals;
+              continue;
+            }
             fail("C09", "unbounded-empty-queue-refuses-fitting-record",
                  J{}.unum("n", n).unum("max", cfg.max).unum("producer_capacity", pc).str("family", "queue-probe"));
             break;
@@ -598,6 +612,7 @@ void run_cfg(Cfg const& c, bool inject)
   g_stats.add("shrink_noops", run.shrink_noops);
   g_stats.add("cap_refusals", run.cap_refusals);
   g_stats.add("unstorable_size_probes_refused", run.unstorable_probes);
+  g_stats.add("fitting_records_refused_because_maximum_is_not_a_power_of_two", run.nonpow2_refusals);
   g_stats.add("oversize_throws", run.throws);
   g_stats.add("recheck_hits_old_node_after_next_seen", run.recheck_hits);
   g_stats.add("old_empty_windows", run.old_empty_windows);
